@@ -222,6 +222,11 @@ class GMRF(Distribution):
         return s
     
     @property
+    def rank(self):
+        """ Rank of the precision matrix (as used in the logpdf). """
+        return self._rank
+
+    @property
     def sqrtprec(self):
         return np.sqrt(self.prec)*self._chol.T
 
